@@ -67,3 +67,32 @@ func VH_C19_AdlerKernel() {
 	vCheck(okB, "adler/b-congruent")
 	vReach("adler/done")
 }
+
+// VH_C19_AdlerBlock: over N symbolic bytes (more than one deferred-modulo block) from an
+// arbitrary valid state, no unsigned addition inside updateAdler32 wraps around: the modulo may be
+// deferred only as long as the 32-bit sums cannot overflow. Natively (replay) the result is
+// compared with the byte-by-byte definition.
+func VH_C19_AdlerBlock() {
+	n := vParam("N")
+	var e Encoder
+	a0, b0 := vU16("a0"), vU16("b0")
+	vAssume(vAnd(a0 < 65521, b0 < 65521))
+	e.buf[0xFFFC] = byte(b0 >> 8)
+	e.buf[0xFFFD] = byte(b0)
+	e.buf[0xFFFE] = byte(a0 >> 8)
+	e.buf[0xFFFF] = byte(a0)
+	data := vBytes("d", n)
+	copy(e.buf[100:], data)
+	vWrapBegin("adler/deferred-sums-do-not-wrap")
+	e.updateAdler32(100, 100+n)
+	vWrapEnd()
+	if vNative() {
+		a, b := uint64(a0), uint64(b0)
+		for _, v := range data {
+			a = (a + uint64(v)) % 65521
+			b = (b + a) % 65521
+		}
+		vCheck(vhBE32(e.buf[0xFFFC:]) == uint32(b<<16|a), "adler/deferred-sums-do-not-wrap")
+	}
+	vReach("adlerblock/done")
+}
